@@ -117,7 +117,7 @@ func genWorkload(t *rapid.T) *workload {
 	if w.prune || rapid.Bool().Draw(t, "smallFiles") {
 		w.fileSize = rapid.SampledFrom([]uint32{1024, 2048, 4096}).Draw(t, "fileSize")
 	}
-	forkProb, maxInvalid := 20, 1
+	forkProb, maxInvalid := 30, 1
 	if w.prune {
 		// reorganisations across pruned blocks cannot work by design: pruned
 		// workloads are linear chains
@@ -456,24 +456,36 @@ func TestCrashRecovery(t *testing.T) {
 		for k := first; k <= ref.boundaries; k++ {
 			ks = append(ks, k)
 		}
-		cap_ := ev.Scale(10, 200)
+		cap_ := ev.Scale(14, 200)
 		exhaustive := len(ks) <= cap_
 		if !exhaustive {
-			// always keep the boundaries of the last two steps (the interrupted
-			// operation is then the last one), sample the rest
-			var tail, rest []int
+			// always keep the boundaries inside reorganisation steps (the tip
+			// after the step is not a child of the tip before it) and those of
+			// the last two steps; sample the rest
+			var must, rest []int
 			for _, k := range ks {
-				if ref.stepOf[k] >= len(w.steps)-2 {
-					tail = append(tail, k)
+				st := ref.stepOf[k]
+				reorgStep := false
+				if st >= 0 && st < len(ref.tipAfter) {
+					before := w.tr.Genesis
+					if st > 0 {
+						before = ref.tipAfter[st-1]
+					}
+					after := ref.tipAfter[st]
+					reorgStep = after != before && after.Parent != before
+				}
+				if reorgStep || st >= len(w.steps)-2 {
+					must = append(must, k)
 				} else {
 					rest = append(rest, k)
 				}
 			}
-			if len(tail) > cap_/2 {
-				tail = tail[len(tail)-cap_/2:]
+			if len(must) > cap_-2 {
+				perm := rapid.Permutation(must).Draw(t, "sampledMust")
+				must = perm[:cap_-2]
 			}
 			perm := rapid.Permutation(rest).Draw(t, "sampledBoundaries")
-			ks = append(tail, perm[:min(len(perm), cap_-len(tail))]...)
+			ks = append(must, perm[:min(len(perm), cap_-len(must))]...)
 		}
 		level2 := ev.Scale(2, 8)
 		wh := ev.HashS(w.String())
